@@ -73,11 +73,18 @@ def cmpRefuses (op : CmpOp) (equal : Bool) : Bool :=
   | .eq => equal
   | .ne => !equal
   | .unknown => false
+  | .notPrefix => !equal
+
+/-- `_check_content_type`: is a request with this content type refused, given the comparison the source uses? -/
+def ctypeRefused (op : CmpOp) : CType → Bool
+  | .correct => cmpRefuses op true
+  | .wrongExtends => (match op with | .notPrefix => false | _ => cmpRefuses op false)   -- a prefix test lets it through
+  | .wrong | .missing => cmpRefuses op false
 
 def resolveStep (t : Tables) (s : ResolveStep) (rq : Req) : Option Resp :=
   match s with
   | .contentType =>
-    if cmpRefuses t.contentTypeOp (rq.ctype == .correct) then some (errorResponse t t.contentTypeStatus)
+    if ctypeRefused t.contentTypeOp rq.ctype then some (errorResponse t t.contentTypeStatus)
     else none
   | .methodLookup =>
     if rq.kind = .unknown then some (errorResponse t t.unknownMethodStatus) else none
@@ -104,9 +111,11 @@ def metaExc : MetaDefect → ValExc
   | .protocolVersion => .protocolVersionError
 
 /-- the request-reading `try` of the unary / init shells: `some r` = refused while reading or validating -/
-def readPhase (t : Tables) (parse : ParseExc → Option Nat) (val : ValExc → Option Nat) : Body → Option Resp
+def readPhase (t : Tables) (parse : ParseExc → Option Nat) (val : ValExc → Option Nat)
+    (deser : DeserExc → Option Nat) : Body → Option Resp
   | .valid => none
   | .cancel => none                          -- `vgi_rpc.cancel` is not looked at here
+  | .badValue e => some (tableResponse t (deser e))   -- `_deserialize_params` raises `e`
   | .parseFail .ipcError =>
     -- `_read_request` may itself refuse an invalid request batch as RpcError("ProtocolError")
     some (tableResponse t (if t.readWrapsBatchValidation then val .rpcError else parse .ipcError))
@@ -126,7 +135,7 @@ def unaryResource (t : Tables) (rq : Req) : Resp :=
   | some r => r
   | none =>
     if cmpRefuses t.unaryGuardOp rq.kind.isStream then errorResponse t t.unaryGuardStatus
-    else match readPhase t t.unaryParse t.unaryVal rq.body with
+    else match readPhase t t.unaryParse t.unaryVal t.unaryDeser rq.body with
       | some r => r
       | none =>
         match rq.beh with
@@ -140,7 +149,7 @@ def initResource (t : Tables) (rq : Req) : Resp :=
   | some r => r
   | none =>
     if cmpRefuses t.initGuardOp rq.kind.isStream then errorResponse t t.initGuardStatus
-    else match readPhase t t.initParse t.initVal rq.body with
+    else match readPhase t t.initParse t.initVal t.initDeser rq.body with
       | some r => r
       | none =>
         match rq.beh with
